@@ -436,6 +436,32 @@ class Interp:
             return None
         if it[0] in ("list", "tuple") and len(it[1]) <= self.MAX_UNROLL:
             return list(it[1])
+        if it[0] == "call" and isinstance(it[1], str) and it[1] in ("itertools.combinations", "itertools.combinations_with_replacement", "itertools.product", "itertools.permutations") and not it[3]:
+            # index tuples over constant ranges (the K-ary families loop over species pairs this way)
+            import itertools as _it
+            pools = []
+            r = None
+            for a in it[2]:
+                if is_const(a) and isinstance(a[1], int) and it[1] != "itertools.product":
+                    r = a[1]
+                    continue
+                vals = self._const_iter(a) if a[0] == "call" else (list(a[1]) if a[0] in ("list", "tuple") else None)
+                if vals is None or not all(is_const(v) for v in vals):
+                    return None
+                pools.append([v[1] for v in vals])
+            try:
+                if it[1] == "itertools.product":
+                    combos = list(_it.product(*pools))
+                elif len(pools) == 1 and r is not None:
+                    combos = list(getattr(_it, it[1].split(".")[1])(pools[0], r))
+                else:
+                    return None
+            except Exception:  # noqa
+                return None
+            if len(combos) <= self.MAX_UNROLL:
+                return [("tuple", tuple(C(v) for v in c)) for c in combos]
+        if it[0] == "call" and it[1] in ("builtins.list", "builtins.tuple") and len(it[2]) == 1 and not it[3]:
+            return self._const_iter(it[2][0])
         return None
 
     def exec_for(self, s: ast.For) -> bool:
@@ -746,6 +772,10 @@ class Interp:
                 parts.append(("fmt", self.expr(v.value), spec))
             else:
                 parts.append(self.expr(v))
+        # every part a literal (text, or an int / str constant formatted without a spec): the string itself
+        if all((is_const(p_) and isinstance(p_[1], str)) or (p_[0] == "fmt" and p_[2] == "" and is_const(p_[1]) and isinstance(p_[1][1], (int, str)) and not isinstance(p_[1][1], bool))
+               for p_ in parts) and any(p_[0] == "fmt" for p_ in parts):
+            return C("".join(str(p_[1]) if is_const(p_) else str(p_[1][1]) for p_ in parts))
         return ("fstr", tuple(parts))
 
     def e_FormattedValue(self, n: ast.FormattedValue) -> Term:
